@@ -150,8 +150,10 @@ package proportion
 //@     invariant 0 - 1 <= rangeindex && rangeindex < len(parentQueue.ChildQueues)
 //@     invariant forall i int :: 0 <= i && i <= rangeindex ==> parentQueue.ChildQueues[i] in childQueues
 //@     invariant forall k in childQueues :: childQueues[k] == pp.queues[k]
+//@     invariant (forall i int :: 0 <= i && i < len(parentQueue.ChildQueues) ==> parentQueue.ChildQueues[i] in pp.queues) ==> (forall k in childQueues :: k in pp.queues)
 //@   ensures [allChildren] forall i int :: 0 <= i && i < len(parentQueue.ChildQueues) ==> parentQueue.ChildQueues[i] in result
 //@   ensures [sameObjects] forall k in result :: result[k] == pp.queues[k]
+//@   ensures [noNilChild] (forall i int :: 0 <= i && i < len(parentQueue.ChildQueues) ==> parentQueue.ChildQueues[i] in pp.queues) ==> (forall k in result :: k in pp.queues)
 //@ end
 
 // ---- session getters (C10 nil sweep): total only for queues that are in the plugin's map ----------
@@ -183,9 +185,11 @@ package proportion
 // ---- fair-share recursion over the hierarchy (C09 / C10) ---------------------------------------------
 // every queue record of the plugin is usable: non-nil, keyed by its UID, coherent caches, non-negative
 // over-quota weights, and every listed child id is present (so getChildQueues yields no nil entry)
-//@ define recOK(q *rs.QueueAttributes) bool = q != nil && rs.cacheOK(q) && q.CPU.OverQuotaWeight >= 0.0 && q.Memory.OverQuotaWeight >= 0.0 && q.GPU.OverQuotaWeight >= 0.0
-//@ define allQueuesOK(m map[common_info.QueueID]*rs.QueueAttributes) bool = forall k in m :: recOK(m[k]) && m[k].UID == k && (forall i int :: 0 <= i && i < len(m[k].ChildQueues) ==> m[k].ChildQueues[i] in m)
-//@ define subMap(sub map[common_info.QueueID]*rs.QueueAttributes, m map[common_info.QueueID]*rs.QueueAttributes) bool = forall k in sub :: k in m && sub[k] == m[k]
+//@ define shapeOK(m map[common_info.QueueID]*rs.QueueAttributes) bool = forall k in m :: m[k] != nil && m[k].UID == k && m[k].CPU.OverQuotaWeight >= 0.0 && m[k].Memory.OverQuotaWeight >= 0.0 && m[k].GPU.OverQuotaWeight >= 0.0
+//@ define childrenPresent(m map[common_info.QueueID]*rs.QueueAttributes) bool = forall k in m :: forall i int :: 0 <= i && i < len(m[k].ChildQueues) ==> m[k].ChildQueues[i] in m
+//@ define cachesOK(m map[common_info.QueueID]*rs.QueueAttributes) bool = forall k in m :: rs.cacheOK(m[k])
+//@ define keysIn(sub map[common_info.QueueID]*rs.QueueAttributes, m map[common_info.QueueID]*rs.QueueAttributes) bool = forall k in sub :: k in m
+//@ define sameAs(sub map[common_info.QueueID]*rs.QueueAttributes, m map[common_info.QueueID]*rs.QueueAttributes) bool = forall k in sub :: sub[k] == m[k]
 
 // C09: every level divides the parent's fair share among its children (SetResourcesShare on the child
 // map with resources = parent.GetFairShare()); C10: no nil child entry is dereferenced when every listed
@@ -193,9 +197,17 @@ package proportion
 // acyclic AND a measure "max height over a map", which the spec language cannot express (see report).
 //@ func (*proportionPlugin).setFairShareForQueues
 //@   props C09 C10
-//@   requires pp != nil && allQueuesOK(pp.queues) && subMap(queues, pp.queues)
+//@   requires pp != nil && shapeOK(pp.queues)
+//@   requires childrenPresent(pp.queues)
+//@   requires cachesOK(pp.queues)
+//@   requires keysIn(queues, pp.queues)
+//@   requires sameAs(queues, pp.queues)
 //@   modifies family(pp.queues[""].CPU.FairShare), family(pp.queues[""].lastFairShare)
 //@   loop 1
-//@     invariant allQueuesOK(pp.queues) && subMap(queues, pp.queues)
-//@   ensures allQueuesOK(pp.queues)
+//@     invariant shapeOK(pp.queues)
+//@     invariant childrenPresent(pp.queues)
+//@     invariant keysIn(queues, pp.queues)
+//@     invariant sameAs(queues, pp.queues)
+//@     invariant cachesOK(pp.queues)
+//@   ensures [cachesKept] cachesOK(pp.queues)
 //@ end
